@@ -1,11 +1,17 @@
 pub mod c01;
 pub mod c02;
 pub mod c04;
+pub mod c05;
 pub mod c07;
 pub mod c08;
 pub mod simcommon;
 pub mod c10;
 pub mod c11;
+pub mod c13;
+pub mod c13w;
+pub mod c15;
+pub mod c16;
+pub mod c16w;
 pub mod c17;
 pub mod c18;
 
@@ -17,10 +23,14 @@ pub fn run(ctx: &Ctx, id: &str) -> bool {
         "C01" => c01::run(ctx),
         "C02" => c02::run(ctx),
         "C04" => c04::run(ctx),
+        "C05" => c05::run(ctx),
         "C07" => c07::run(ctx),
         "C08" => c08::run(ctx),
         "C10" => c10::run(ctx),
         "C11" => c11::run(ctx),
+        "C13" => c13::run(ctx),
+        "C15" => c15::run(ctx),
+        "C16" => c16::run(ctx),
         "C17" => c17::run(ctx),
         "C18" => c18::run(ctx),
         _ => return false,
@@ -33,10 +43,14 @@ pub fn replay(ctx: &Ctx, id: &str, part: &str, case: &Value) -> bool {
         "C01" => c01::replay(ctx, part, case),
         "C02" => c02::replay(ctx, part, case),
         "C04" => c04::replay(ctx, part, case),
+        "C05" => c05::replay(ctx, part, case),
         "C07" => c07::replay(ctx, part, case),
         "C08" => c08::replay(ctx, part, case),
         "C10" => c10::replay(ctx, part, case),
         "C11" => c11::replay(ctx, part, case),
+        "C13" => c13::replay(ctx, part, case),
+        "C15" => c15::replay(ctx, part, case),
+        "C16" => c16::replay(ctx, part, case),
         "C17" => c17::replay(ctx, part, case),
         "C18" => c18::replay(ctx, part, case),
         _ => {
